@@ -238,6 +238,10 @@ func Generate(profile string, seed uint64, tier string) (*Scenario, error) {
 				ents := []Ent{{"id": g.Pick([]string{MkE + "e0", MkE + "e1", MkE + "m" + fmt.Sprint(ti)}), "props": map[string]any{MkS + "w": fmt.Sprintf("mgr%d", ti)}, "refs": map[string]any{}}}
 				pos := g.Intn(len(sc.Tasks[ti]) + 1)
 				op := Op{K: "batch", DS: g.Pick(names), Ents: ents}
+				if g.P(0.35) {
+					// the write comes as a transaction (POST /transactions, or a transform's ExecuteTransaction)
+					op = Op{K: "txn", Parts: []Part{{DS: g.Pick(names), Ents: ents}}}
+				}
 				sc.Tasks[ti] = append(sc.Tasks[ti][:pos:pos], append([]Op{op}, sc.Tasks[ti][pos:]...)...)
 			}
 		}
